@@ -750,6 +750,13 @@ def cases(rng, tier):
                         continue
                     ops = [('advance', base, base), ('reinstall', 0)] + [('todue',), ('poll',)] * 6
                     out.append(mk_case('B-grid', cfg, ops, mode, JIT_B))
+    # API refusals on recurring tasks: install_task(when=) / (delta=) are TypeErrors, resume before any
+    # install and non-positive intervals are RuntimeErrors; the task stays unqueued
+    for kind in (('rec', 300000, 0), ('rec', 0, 0), ('rec', -3000, 0)):
+        cfgr = [(kind, False, ()), ONE]
+        for first in (('install', 0, 5), ('after', 0, 5), ('resume', 0), ('reinstall', 0), ('suspend', 0)):
+            ops = [('advance', 777, 777), first, ('reinstall', 0), ('install', 1, 900), ('todue',), ('runonce',), ('todue',), ('poll',)]
+            out.append(mk_case('B-api-errors', cfgr, ops, 'tick', JIT_B))
     # (D) deferred batches
     for forest in deferred_cases(tier):
         ops = [('defer', d) for d in forest]
